@@ -122,4 +122,5 @@ func VerifC10MutatingElements() {
 		_, _ = Eq(Tuple(l.Items), Tuple(other.Items))
 	}
 	verifReach("called")
+	verifAssert(true, "the operation came back (value or error) without a Go panic, for every value of the symbolic operands on this path")
 }
